@@ -457,10 +457,14 @@ class SExec:
             parts = []
             for v in e.values:
                 if isinstance(v, ast.FormattedValue):
-                    if v.format_spec is not None:
-                        raise Unsupported("format spec in f-string")
                     x = self.ev(v.value, env)
-                    parts.append(self.fmt(x, v.conversion))
+                    if v.format_spec is not None:
+                        spec = self.ev(v.format_spec, env)
+                        if not isinstance(spec, str):
+                            raise Unsupported("symbolic format spec")
+                        parts.append(format(x, spec) if isinstance(x, (int, float, str)) else Tmpl([Hole("format()", x, spec=spec)]))
+                    else:
+                        parts.append(self.fmt(x, v.conversion))
                 else:
                     parts.append(v.value)
             return _norm(Tmpl(parts))
